@@ -478,7 +478,7 @@ func TestVerifC42(t *testing.T) {
 	defer runtime.GOMAXPROCS(origProcs)
 
 	classes := []string{"random", "diamond", "chain", "wide", "fan1000", "forest", "random", "diamond"}
-	n := env.Pick(1200, 6000)
+	n := env.Pick(1200, 4000)
 	var evals, treesLoaded, procCalls int64
 	for ci := 0; ci < n && !c42Hung; ci++ {
 		if !env.Mine(ci) {
